@@ -27,8 +27,30 @@ const seedDefs = `{"swagger":"2.0","info":{"title":"t","version":"1"},"paths":{"
  "Dog":{"allOf":[{"$ref":"#/definitions/Pet"},{"type":"object","properties":{"bark":{"type":"boolean","default":true}}}]},
  "Owner":{"type":"object","properties":{"a.a":{"type":"string"},"pets":{"type":"array","items":{"$ref":"#/definitions/Pet"}}},"example":{"a.a":"x"}}}}`
 
+// seedIDs: the "params" seed with the things that have free names called id and $schema (names the
+// object validator special-cases): a definition, a model property, a shared parameter, a shared
+// response, a response header. Edits are restricted to what lies below those names.
+func seedIDs() string {
+	s := strings.ReplaceAll(seedParams, "\n", "")
+	r := strings.NewReplacer(
+		`"#/definitions/Item"`, `"#/definitions/id"`, `"Item":{`, `"id":{`,
+		`"#/definitions/Base"`, `"#/definitions/$schema"`, `"Base":{`, `"$schema":{`,
+		`"required":["name"]`, `"required":["id"]`, `"name":{"type":"string","example":"n"}`, `"id":{"type":"string","example":"n"}`, `[{"name":"n"}]`, `[{"id":"n"}]`,
+		`"#/parameters/lim"`, `"#/parameters/id"`, `"lim":{`, `"id":{`,
+		`"#/responses/err"`, `"#/responses/$schema"`, `"err":{`, `"$schema":{`,
+		`"X-Rate":{`, `"id":{`,
+	)
+	return r.Replace(s)
+}
+
+func underSpecialName(desc string) bool {
+	return strings.Contains(desc, "/id/") || strings.Contains(desc, "/$schema/") || strings.Contains(desc, "/id ") || strings.Contains(desc, "/$schema ") ||
+		strings.HasSuffix(desc, "/id") || strings.HasSuffix(desc, "/$schema")
+}
+
 func specSeeds(quick bool) map[string]string {
 	m := map[string]string{"minimal": seedMinimal, "params": strings.ReplaceAll(seedParams, "\n", "")}
+	m["ids"] = seedIDs()
 	if !quick {
 		m["defs"] = strings.ReplaceAll(seedDefs, "\n", "")
 	}
